@@ -324,7 +324,7 @@ Definition mszip_run (out_bytes : N) : sprog N :=
 
 (* whole-stream ideal run for the driver *)
 Definition mszip_ideal (inp : list N) (out_bytes : N) : N * list N :=
-  match ideal EofPad2 (mszip_run out_bytes) {| irest := inp ++ pad EofPad2; iout := [] |} with
+  match ideal EofPad2 0 (mszip_run out_bytes) {| irest := inp ++ pad EofPad2; iout := [] |} with
   | (SVal st, s) => (st, rev_append (iout s) [])
   | (SStop e, s) => (e, rev_append (iout s) [])
   end.
